@@ -482,6 +482,33 @@ pub fn eval_c07(sc: &Scenario, h: &History, signed: &Signeds, out: &mut Outcome)
                 if let Ok(lo) = sess.output(&o2) {
                     min_ada_fn_clause(k, &lo, &format!("op {} requested output with coin 0", i), out);
                 }
+                // ... and carrying a coin that sits exactly on the last value of a CBOR width class
+                for edge in [23u64, 255, 65535, 4294967295] {
+                    if (i + edge as usize) % 3 == 0 {
+                        let mut o4 = o.clone();
+                        o4.min_coin = false;
+                        o4.form = 0;
+                        o4.coin = edge;
+                        if let Ok(lo) = sess.output(&o4) {
+                            min_ada_fn_clause(k, &lo, &format!("op {} requested output with coin {}", i, edge), out);
+                        }
+                    }
+                }
+                // the output builder's "minimum required coin" helper is the same function behind another door:
+                // the output it returns carries at least the bound for its own size
+                if o.min_coin {
+                    if let Ok(lo) = sess.output(o) {
+                        let b = lo.to_bytes();
+                        if let Ok(n) = cbor::parse(&b) {
+                            if let Some(coin) = coin_node(&n).and_then(|c| c.as_u64()) {
+                                out.count("c07.helper_outputs_checked", 1);
+                                if (coin as u128) < k.cpb as u128 * (160 + b.len() as u128) {
+                                    out.violate("C07.min_ada_fn", "helper_output_below_bound", format!("op {}: the output builder's minimum-coin helper returned coin {} for an output of {} bytes: below {} x (160 + {})", i, coin, b.len(), k.cpb, b.len()));
+                                }
+                            }
+                        }
+                    }
+                }
                 // the function clause speaks of *every* output: the same output with one more listed
                 // asset of quantity zero (never handed to the builder, only measured)
                 if !o.assets.is_empty() && i % 2 == 0 {
